@@ -181,6 +181,7 @@ def tasks(tier):
     for i in range(len(MENU)):
         ts.append(("lists2", i, tier))
     ts.append(("xyx",))
+    ts.append(("manymembers",))
     if tier == "thorough":
         for i in range(len(SUBMENU)):
             ts.append(("lists3", i))
@@ -216,6 +217,16 @@ def run_task(task, acc):
         def gen():
             for b in second:
                 yield from prod_cases([a, b])
+        run_cases(acc, gen(), check_case)
+    elif kind == "manymembers":
+        # long member lists (6, 12 and 40 members; every time kind, depth span and value set mixed)
+        def gen():
+            for size, stride in ((6, 23), (6, 31), (12, 7), (12, 19), (40, 11), (40, 3)):
+                members = [MENU[(5 + i * stride) % len(MENU)] for i in range(size)]
+                for order in ORDERS:
+                    yield dict(members=members, order=order)
+                yield dict(members=members, order="stride", z="masked")
+                yield dict(members=list(reversed(members)), order="stride")
         run_cases(acc, gen(), check_case)
     elif kind == "xyx":
         # three members whose time kinds interleave (X, Y, X) with different verdicts: configuration order must win
